@@ -60,6 +60,91 @@ def directed_configs():
     return out
 
 
+FILLERS = [b"\x00", b"\xFF", b"\xAA", b"\x55", b"\x42\x42\x43\x44\x10\x00\x00\x00\x00\x00\x00\x00\x00"]
+
+
+def fill_cases(rng, n_random):
+    """inputs of the three slice-padding fillers: every small slice size x component x fill level"""
+    ld, hq, gp = [], [], []
+    for sb in list(range(1, 41)) + [64, 100, 255, 256, 1000]:
+        data = 8 * sb - 7
+        k = (data - 1).bit_length()
+        data -= k
+        for comp in ("Y", "C"):
+            for zeros in sorted(set([0, 1, 3, 8, max(0, data - 1), data, data + 2])):
+                for fi, al in ((0, 0), (2, 0), (4, 1)):
+                    ld.append((sb, comp, zeros, fi, al))
+    for _ in range(n_random):
+        ld.append((rng.randrange(1, 300), rng.choice("YC"), rng.randrange(0, 60), rng.randrange(5), rng.randrange(2)))
+        hq.append((rng.choice([1, 1, 2, 3, 7]), rng.randrange(0, 40), rng.randrange(0, 40), rng.randrange(0, 40),
+                   rng.choice([0, 0, 8, 50, 200]), rng.randrange(3), rng.randrange(0, 70), rng.randrange(5), rng.randrange(2)))
+        gp.append((rng.randrange(0, 200), rng.randrange(5), rng.randrange(0, 40)))
+    for sc in (1, 2):
+        for y, c1, c2 in ((0, 0, 0), (1, 0, 0), (1, 2, 3), (85, 85, 85)):
+            for mn in (0, y + c1 + c2 + 8):
+                for comp in range(3):
+                    for zeros in (0, 5, 8 * sc * max(mn, y + c1 + c2), 8 * sc * max(mn, y + c1 + c2) + 3):
+                        hq.append((sc, y, c1, c2, mn, comp, zeros, 1, 0))
+                        hq.append((sc, y, c1, c2, mn, comp, zeros, 4, 1))
+    for n in range(0, 30):
+        for a in (0, 1, 7, 8, 13):
+            gp.append((n, 4, a))
+            gp.append((n, 3, a))
+    return ld, hq, gp
+
+
+def bits(ba):
+    return ba.to01() or "-"
+
+
+def real_ld_fill(sb, comp, zeros, fi, al):
+    from vc2_conformance.bitstream import LDSlice
+    from vc2_conformance.pseudocode.state import State
+    from vc2_conformance.test_cases.decoder.pictures import fill_ld_slice_padding
+    from bitarray import bitarray
+
+    st = State(slices_x=1, slices_y=1, slice_bytes_numerator=sb, slice_bytes_denominator=1)
+    sl = LDSlice(qindex=3, slice_y_length=0, y_transform=[5] * (zeros if comp == "Y" else 2), c_transform=[7] * (zeros if comp == "C" else 2),
+                 y_block_padding=bitarray(), c_block_padding=bitarray())
+    fill_ld_slice_padding(st, 0, 0, sl, comp, FILLERS[fi], bool(al))
+    return sl
+
+
+def ld_fill_violation(sb, comp, zeros, fi, al):
+    """what serialising the slice needs: the luma length fits its field and the slice, all transform
+    values are zero, the padding fills the component's bounded block exactly"""
+    sl = real_ld_fill(sb, comp, zeros, fi, al)
+    data = 8 * sb - 7
+    k = (data - 1).bit_length()
+    data -= k
+    y = sl["slice_y_length"]
+    if not (0 <= y < (1 << k)):
+        return "slice_y_length=%d does not fit its %d-bit field" % (y, k)
+    if y > data:
+        return "slice_y_length=%d exceeds the %d data bits of the slice" % (y, data)
+    if any(sl["y_transform"]) or any(sl["c_transform"]):
+        return "transform values are not all zero"
+    room = (y if comp == "Y" else data - y) - zeros
+    pad = sl["%s_block_padding" % comp.lower()]
+    if len(pad) != max(0, room):
+        return "padding has %d bits, the component has room for %d" % (len(pad), max(0, room))
+    return None
+
+
+def real_hq_fill(sc, y, c1, c2, mn, comp, zeros, fi, al):
+    from vc2_conformance.bitstream import HQSlice
+    from vc2_conformance.pseudocode.state import State
+    from vc2_conformance.test_cases.decoder.pictures import fill_hq_slice_padding
+    from bitarray import bitarray
+
+    name = ["Y", "C1", "C2"][comp]
+    sl = HQSlice(qindex=3, slice_y_length=y, slice_c1_length=c1, slice_c2_length=c2,
+                 y_transform=[5] * (zeros if comp == 0 else 2), c1_transform=[5] * (zeros if comp == 1 else 2), c2_transform=[5] * (zeros if comp == 2 else 2),
+                 y_block_padding=bitarray(), c1_block_padding=bitarray(), c2_block_padding=bitarray())
+    fill_hq_slice_padding(State(slice_size_scaler=sc), 0, 0, sl, name, FILLERS[fi], bool(al), mn)
+    return sl, name
+
+
 def decode_stream(stream):
     from vc2_conformance.bitstream import autofill_and_serialise_stream
 
@@ -157,12 +242,39 @@ class Prop(object):
             "of the REAL decoder registry (all 20 generators; signal_range and real_pictures in the thorough tier) is serialised and validated; names unique; configured parameters; "
             "encoding-variant generators decode picture-for-picture like their first case and like the plain encoding of the same source; mid-grey cases exact; picture-number cases as documented")
     trusted = ["the stream-structure model (C01) for the transparency lemmas; generated registry name table; the runner harness/codecgen.py",
+               "hand-written model lean/VC2/Model/SlicePad.lean of the slice-padding fillers, tied by the `sp` correspondence",
                "that each generator is a content-preserving transformation is established by this experiment only"]
     assumptions = ["a generator that raises for a configuration is recorded as an observation (the property speaks about the test cases that are produced); known: signal_range for depth-0 transforms"]
+
+    def correspond_fillers(self, ctx, rng):
+        from vc2_conformance.test_cases.decoder.pictures import generate_filled_padding
+
+        ld, hq, gp = fill_cases(rng, ctx.n(300, 5000))
+        lines, exp = [], []
+        for (sb, comp, zeros, fi, al) in ld:
+            sl = real_ld_fill(sb, comp, zeros, fi, al)
+            lines.append("sp L %d %s %d %s %d" % (sb, comp, zeros, ",".join(map(str, FILLERS[fi])), al))
+            exp.append("%d %s" % (sl["slice_y_length"], bits(sl["%s_block_padding" % comp.lower()])))
+            why = ld_fill_violation(sb, comp, zeros, fi, al)
+            if why and not self._bad:
+                self._bad = {"filler": "fill_ld_slice_padding", "args": [sb, comp, zeros, fi, al], "why": why}
+        for a in hq:
+            sl, name = real_hq_fill(*a)
+            (sc, y, c1, c2, mn, comp, zeros, fi, al) = a
+            lines.append("sp H %d %d %d %d %d %d %d %s %d" % (sc, y, c1, c2, mn, comp, zeros, ",".join(map(str, FILLERS[fi])), al))
+            exp.append("%d,%d,%d %s" % (sl["slice_y_length"], sl["slice_c1_length"], sl["slice_c2_length"], bits(sl["%s_block_padding" % name.lower()])))
+        for (n, fi, a) in gp:
+            lines.append("sp G %d %s %d" % (n, ",".join(map(str, FILLERS[fi])), a))
+            exp.append(bits(generate_filled_padding(n, FILLERS[fi], a)))
+        ctx.count("filler-cases:ld", len(ld))
+        ctx.count("filler-cases:hq", len(hq))
+        ctx.count("filler-cases:generate", len(gp))
+        ctx.diff("sp slice-padding fillers (fill_ld_slice_padding, fill_hq_slice_padding, generate_filled_padding) == model", lines, exp)
 
     def correspond(self, ctx):
         rng = ctx.rng("tc")
         self._bad = None
+        self.correspond_fillers(ctx, ctx.rng("sp"))
         ctx.corr_names.append("REAL decoder test-case registry: every case valid, named uniquely, variants decode like their base, mid-grey exact, numbers as documented")
         cfs = directed_configs() + [rand_config(rng) for _ in range(ctx.n(25, 400))]
         for cf in cfs:
@@ -183,6 +295,14 @@ class Prop(object):
 
     def search(self, ctx):
         rng = ctx.rng("search")
+        ld, hq, gp = fill_cases(rng, ctx.n(2000, 20000))
+        for a in ld:
+            try:
+                why = ld_fill_violation(*a)
+            except Exception as e:  # noqa
+                why = "exception %s: %s" % (type(e).__name__, str(e)[:200])
+            if why:
+                return {"filler": "fill_ld_slice_padding", "args": list(a), "why": why}
         for cf in directed_configs() + [rand_config(rng) for _ in range(ctx.n(40, 400))]:
             try:
                 why, n, skipped = violates(cf)
@@ -201,6 +321,10 @@ class Prop(object):
         if not fi:
             print("replay names broken obligations only:", r.get("broken_obligations"))
             return 1
+        if "filler" in fi:
+            why = ld_fill_violation(*fi["args"])
+            print("replay ->", why or "property holds")
+            return 1 if why else 0
         why, n, skipped = violates(CodecFeatures(G.from_description(fi["config"]), name="cf"))
         print("replay ->", why or "property holds")
         return 1 if why else 0
